@@ -505,7 +505,7 @@ def typestate(prog: Program, rep, x: ExcFlow, only_flow: bool = False):
                 n_sites += 1
                 rep.check(validated_receiver(sv, si, a), "typestate-validated-arguments", sv.qualname, short(si.stmt),
                           f"`{a.id}` handed to {tg[0].short} is a validated iterate at that point", sv.loc(call))
-    rep.pin("iterate arguments passed from solve to termination/penalty/report code", n_sites, 5)
+    rep.pin("iterate arguments passed from solve to termination/penalty/report code", n_sites, 3)   # sites disappear when a callee is expanded in place
 
 
 def initial_point(prog: Program, rep, x: ExcFlow) -> None:
